@@ -366,7 +366,7 @@ fn c01_simdvec_reset_len3() {
     c01_simdvec_reset_body::<0>(2);
 }
 
-//@ unit props=C01,C10 tier=thorough kind=bounded timeout=900 funcs="pack_into_simd_vec; SimdVec::reset_from_slice; SimdVec::as_ref" bound="17 samples (2 vectors, 15 padding lanes), 16 lanes, previous content: 1 arbitrary vector"
+//@ unit props=C01,C10 tier=quick kind=bounded timeout=300 funcs="pack_into_simd_vec; SimdVec::reset_from_slice; SimdVec::as_ref" bound="17 samples (2 vectors, 15 padding lanes), 16 lanes, previous content: 1 arbitrary vector"
 #[kani::proof]
 #[kani::unwind(34)]
 fn c01_simdvec_reset_len17() {
